@@ -121,11 +121,18 @@ static void aggr_handler(const unsigned char *req, size_t n, vbuf *resp, void *u
 		fx_handler(req, n, resp, user);
 		return;
 	}
-	if (!r.has_req || !r.has_hash) { rp_req_free(&r); return; }
-	level = r.has_level ? r.level : 0;
 	memset(&e, 0, sizeof e);
 	e.version = r.version; e.kind = RP_AGGR; e.login = A_LOGIN; e.mac_alg = RH_SHA256; e.key = A_KEY; e.keylen = strlen(A_KEY);
 	vb_init(&body); vb_init(&payload);
+	if (r.has_conf_req && !r.has_req && r.version == 2) {
+		rp_aggr_conf_payload(&payload, 17, 1, 400, 1024, "ksi+tcp://parent.c19.test:1");
+		rp_wrap_response(resp, &e, payload.p, payload.n);
+		vb_free(&body); vb_free(&payload);
+		rp_req_free(&r);
+		return;
+	}
+	if (!r.has_req || !r.has_hash) { vb_free(&body); vb_free(&payload); rp_req_free(&r); return; }
+	level = r.has_level ? r.level : 0;
 	if (level + 1 <= 255) {
 		rp_aggregate(&sig, r.hash, r.hash_len, level, 3, 3, A_T0, A_P0);
 		sig.ch[0].links[0].level_corr -= level;
@@ -423,11 +430,13 @@ static void su_verify_default(int k) {
 	rs_aggr_root(&model, 0, FXS.root, &FXS.root_len, NULL);
 	pubfile_bytes(&FXS.pubfile);
 	vb_free(&sb);
+	{ const unsigned char *dh; size_t dl; rs_document_hash(&model, &dh, &dl); if (KSI_DataHash_fromImprint(G.ctx, dh, dl, &G.dh[0]) != KSI_OK) vf_harness_error("document hash"); }
 }
 static int run_verify_default(int k) {
 	int res;
-	(void)k;
-	CK(KSI_verifySignature(G.ctx, G.sig));
+	if (k == 1) CK(KSI_Signature_verifyWithPolicy(G.sig, G.dh[0], 3, KSI_VERIFICATION_POLICY_INTERNAL, NULL));
+	else if (k == 2) CK(KSI_verifyDataHash(G.ctx, G.sig, G.dh[0]));
+	else CK(KSI_verifySignature(G.ctx, G.sig));
 done:
 	fault_off();
 	if (res == KSI_OK) out_fmt("verified");
@@ -667,21 +676,32 @@ done:
 	return res;
 }
 
-/* ---- blocking signing (k: 0 TCP, 1 HTTP; +2 with level) */
+static int null_logger(void *c, int level, const char *msg) { (void)c; (void)level; (void)msg; return KSI_OK; }
+/* ---- blocking signing (k bit 0: HTTP instead of TCP; bit 1: with level; bit 2: PDU version 1; bit 3: debug logging switched on; 16: configuration request) */
 static void su_sign(int k) {
 	net_reset();
 	G.ctx = ku_ctx();
 	if (KSI_CTX_setAggregator(G.ctx, (k & 1) ? HTTP_AGGR : TCP_AGGR, A_LOGIN, A_KEY) != KSI_OK) vf_harness_error("setAggregator");
+	if (k & 4) KSI_CTX_setOption(G.ctx, KSI_OPT_AGGR_PDU_VER, (void *)(size_t)KSI_PDU_VERSION_1);
+	if (k & 8) { KSI_CTX_setLoggerCallback(G.ctx, null_logger, NULL); KSI_CTX_setLogLevel(G.ctx, KSI_LOG_DEBUG); }
 	G.dh[0] = mk_hash(31);
 }
 static int run_sign(int k) {
 	KSI_Signature *s = NULL;
+	KSI_Config *cfg = NULL;
 	int res;
-	CK(KSI_Signature_signAggregated(G.ctx, G.dh[0], (k & 2) ? 2 : 0, &s));
+	if (k == 16) CK(KSI_receiveAggregatorConfig(G.ctx, &cfg));
+	else CK(KSI_Signature_signAggregated(G.ctx, G.dh[0], (k & 2) ? 2 : 0, &s));
 done:
 	fault_off();
-	if (res == KSI_OK) out_sig(s);
+	if (res == KSI_OK && k == 16) {
+		KSI_Integer *ml = NULL, *mr = NULL;
+		KSI_LIST(KSI_Utf8String) *pu = NULL;
+		KSI_Config_getMaxLevel(cfg, &ml); KSI_Config_getMaxRequests(cfg, &mr); KSI_Config_getParentUri(cfg, &pu);
+		out_fmt("config:maxlevel=%llu maxreq=%llu parents=%zu", (unsigned long long)KSI_Integer_getUInt64(ml), (unsigned long long)KSI_Integer_getUInt64(mr), KSI_Utf8StringList_length(pu));
+	} else if (res == KSI_OK) out_sig(s);
 	else if (s != NULL) out_fmt("error-with-object");
+	KSI_Config_free(cfg);
 	KSI_Signature_free(s);
 	return res;
 }
@@ -697,6 +717,7 @@ static void su_extend(int k) {
 	else {
 		G.ctx = ku_ctx();
 		if (KSI_CTX_setExtender(G.ctx, (k == 1 || k == 2) ? HTTP_EXT : TCP_EXT, FX_LOGIN, FX_KEY) != KSI_OK) vf_harness_error("setExtender");
+		if (k == 4) KSI_CTX_setOption(G.ctx, KSI_OPT_EXT_PDU_VER, (void *)(size_t)KSI_PDU_VERSION_1);
 	}
 	sig_model(k == 1 ? 3 : 1, &model);
 	vb_init(&sb);
@@ -704,7 +725,7 @@ static void su_extend(int k) {
 	G.sig = parse_fixture(&sb);
 	vb_free(&sb);
 	rs_aggr_root(&model, 0, FXS.root, &FXS.root_len, NULL);
-	if (k == 0 && KSI_Integer_new(G.ctx, FX_P1, &G.to) != KSI_OK) vf_harness_error("integer");
+	if ((k == 0 || k == 4) && KSI_Integer_new(G.ctx, FX_P1, &G.to) != KSI_OK) vf_harness_error("integer");
 	if (k == 1) {
 		unsigned char h[RH_MAX_IMPRINT];
 		size_t hl;
@@ -716,7 +737,7 @@ static void su_extend(int k) {
 static int run_extend(int k) {
 	KSI_Signature *e = NULL;
 	int res;
-	if (k == 0 || k == 2) CK(KSI_Signature_extendTo(G.sig, G.ctx, G.to, &e));
+	if (k == 0 || k == 2 || k == 4) CK(KSI_Signature_extendTo(G.sig, G.ctx, G.to, &e));
 	else if (k == 1) CK(KSI_Signature_extend(G.sig, G.ctx, G.pr, &e));
 	else CK(KSI_extendSignature(G.ctx, G.sig, &e));
 done:
@@ -820,28 +841,35 @@ done:
 /* ---- block signer over the simulated aggregator */
 static void su_block(int k) {
 	int i;
-	(void)k;
 	net_reset();
 	G.ctx = ku_ctx();
 	if (KSI_CTX_setAggregator(G.ctx, TCP_AGGR, A_LOGIN, A_KEY) != KSI_OK) vf_harness_error("setAggregator");
 	for (i = 0; i < 3; i++) G.dh[i] = mk_hash(60 + (unsigned)i);
 	G.md = mk_meta();
+	if (k == 1) {
+		/* masking: previous leaf + initialisation vector */
+		static const unsigned char iv[32] = {1, 2, 3, 4, 5, 6, 7, 8, 9, 10, 11, 12, 13, 14, 15, 16, 17, 18, 19, 20, 21, 22, 23, 24, 25, 26, 27, 28, 29, 30, 31, 32};
+		G.dh[3] = mk_hash(69);
+		if (KSI_OctetString_new(G.ctx, iv, sizeof iv, &G.os) != KSI_OK) vf_harness_error("octet string");
+	}
 }
 static int run_block(int k) {
 	KSI_BlockSigner *bs = NULL;
 	KSI_BlockSignerHandle *h[3] = {NULL, NULL, NULL};
 	KSI_Signature *s[3] = {NULL, NULL, NULL};
+	KSI_DataHash *prev = NULL;
 	int res, i;
-	(void)k;
-	CK(KSI_BlockSigner_new(G.ctx, KSI_HASHALG_SHA2_256, NULL, NULL, &bs));
+	CK(KSI_BlockSigner_new(G.ctx, KSI_HASHALG_SHA2_256, k == 1 ? G.dh[3] : NULL, k == 1 ? G.os : NULL, &bs));
 	CK(KSI_BlockSigner_addLeaf(bs, G.dh[0], 0, NULL, &h[0]));
 	CK(KSI_BlockSigner_addLeaf(bs, G.dh[1], 0, G.md, &h[1]));
 	CK(KSI_BlockSigner_addLeaf(bs, G.dh[2], 0, NULL, &h[2]));
 	CK(KSI_BlockSigner_closeAndSign(bs));
 	for (i = 0; i < 3; i++) CK(KSI_BlockSignerHandle_getSignature(h[i], &s[i]));
+	CK(KSI_BlockSigner_getPrevLeaf(bs, &prev));          /* handed over to the caller */
 done:
 	fault_off();
-	if (res == KSI_OK) for (i = 0; i < 3; i++) out_sig(s[i]);
+	if (res == KSI_OK) { for (i = 0; i < 3; i++) out_sig(s[i]); out_hash(prev); }
+	KSI_DataHash_free(prev);
 	for (i = 0; i < 3; i++) { KSI_Signature_free(s[i]); KSI_BlockSignerHandle_free(h[i]); }
 	KSI_BlockSigner_free(bs);
 	return res;
@@ -876,7 +904,11 @@ static int run_async(int k) {
 	size_t il = ref_fake_imprint(RH_SHA256, 71, imp);
 	int res, i, state = 0, err = 0;
 	if (svc == NULL) {
-		if (k & 8) {
+		if ((k & 8) && (k & 4)) {
+			CK(KSI_ExtendingHighAvailabilityService_new(G.ctx, &svc));
+			CK(KSI_AsyncService_addEndpoint(svc, HTTP_EXT, FX_LOGIN, FX_KEY));
+			CK(KSI_AsyncService_addEndpoint(svc, TCP_EXT, FX_LOGIN, FX_KEY));
+		} else if (k & 8) {
 			CK(KSI_ExtendingAsyncService_new(G.ctx, &svc));
 			CK(KSI_AsyncService_setEndpoint(svc, (k & 1) ? HTTP_EXT : TCP_EXT, FX_LOGIN, FX_KEY));
 		} else if (k & 4) {
@@ -918,6 +950,55 @@ done:
 	KSI_AsyncHandle_free(hd);
 	KSI_DataHash_free(h);
 	if (svc != G.svc) KSI_AsyncService_free(svc);
+	return res;
+}
+
+/* three requests in flight on one service (k: 0 TCP, 1 HTTP) */
+static int run_async_multi(int k) {
+	KSI_AsyncService *svc = NULL;
+	KSI_AsyncHandle *hd = NULL, *out = NULL;
+	KSI_DataHash *h = NULL;
+	KSI_Signature *s[3] = {NULL, NULL, NULL};
+	int res, i, added = 0, got = 0;
+	CK(KSI_SigningAsyncService_new(G.ctx, &svc));
+	CK(KSI_AsyncService_setEndpoint(svc, (k & 1) ? HTTP_AGGR : TCP_AGGR, A_LOGIN, A_KEY));
+	CK(KSI_AsyncService_setOption(svc, KSI_ASYNC_OPT_REQUEST_CACHE_SIZE, (void *)(size_t)4));
+	CK(KSI_AsyncService_setOption(svc, KSI_ASYNC_OPT_MAX_REQUEST_COUNT, (void *)(size_t)4));
+	for (added = 0; added < 3; added++) {
+		unsigned char imp[RH_MAX_IMPRINT];
+		size_t il = ref_fake_imprint(RH_SHA256, 75 + (unsigned)added, imp);
+		CK(KSI_DataHash_fromImprint(G.ctx, imp, il, &h));
+		CK(KSI_AsyncSigningHandle_new(G.ctx, h, 0, &hd));
+		h = NULL;
+		CK(KSI_AsyncHandle_setRequestCtx(hd, (void *)(size_t)(added + 1), NULL));
+		CK(KSI_AsyncService_addRequest(svc, hd));
+		hd = NULL;
+	}
+	for (i = 0; i < 120 && got < 3; i++) {
+		size_t waiting = 0;
+		const void *tag = NULL;
+		int state = 0, err = 0;
+		out = NULL;
+		CK(KSI_AsyncService_run(svc, &out, &waiting));
+		if (out == NULL) { sn_now += 1; continue; }
+		CK(KSI_AsyncHandle_getState(out, &state));
+		CK(KSI_AsyncHandle_getError(out, &err));
+		CK(KSI_AsyncHandle_getRequestCtx(out, &tag));
+		if (state != KSI_ASYNC_STATE_RESPONSE_RECEIVED) { res = err ? err : KSI_UNKNOWN_ERROR; goto done; }
+		if ((size_t)tag < 1 || (size_t)tag > 3 || s[(size_t)tag - 1] != NULL) { res = KSI_INVALID_STATE; goto done; }
+		CK(KSI_AsyncHandle_getSignature(out, &s[(size_t)tag - 1]));
+		KSI_AsyncHandle_free(out); out = NULL;
+		got++;
+	}
+	if (got < 3) res = KSI_NETWORK_RECIEVE_TIMEOUT;
+done:
+	fault_off();
+	if (res == KSI_OK) for (i = 0; i < 3; i++) out_sig(s[i]);
+	for (i = 0; i < 3; i++) KSI_Signature_free(s[i]);
+	KSI_AsyncHandle_free(out);
+	KSI_AsyncHandle_free(hd);
+	KSI_DataHash_free(h);
+	KSI_AsyncService_free(svc);
 	return res;
 }
 
@@ -1166,6 +1247,8 @@ static const op_t OPS[] = {
 	{"verify-userpub", su_world, run_verify, P_USERPUB},
 	{"verify-general", su_world, run_verify, P_GENERAL},
 	{"verify-default-ctx", su_verify_default, run_verify_default, 0},
+	{"verify-helper-internal", su_verify_default, run_verify_default, 1},
+	{"verify-datahash-ctx", su_verify_default, run_verify_default, 2},
 	{"sig-serialize", su_sig, run_serialize, 3},
 	{"sig-clone", su_sig, run_clone, 3},
 	{"sig-clone-rfc3161", su_sig, run_clone, 4},
@@ -1179,14 +1262,19 @@ static const op_t OPS[] = {
 	{"sign-tcp", su_sign, run_sign, 0},
 	{"sign-http", su_sign, run_sign, 1},
 	{"sign-level-tcp", su_sign, run_sign, 2},
+	{"sign-tcp-pdu-v1", su_sign, run_sign, 4},
+	{"sign-http-logging", su_sign, run_sign, 9},
+	{"aggregator-config-tcp", su_sign, run_sign, 16},
 	{"extend-to-tcp", su_extend, run_extend, 0},
 	{"extend-pubrec-http", su_extend, run_extend, 1},
 	{"extend-head-http", su_extend, run_extend, 2},
 	{"extend-nearest-ctx", su_extend, run_extend, 3},
+	{"extend-to-tcp-pdu-v1", su_extend, run_extend, 4},
 	{"tree-builder", su_tree, run_tree, 0},
 	{"builder-append-chain", su_builder, run_builder, 0},
 	{"builder-reclose", su_builder, run_builder, 1},
 	{"block-signer", su_block, run_block, 0},
+	{"block-signer-masked", su_block, run_block, 1},
 	{"async-sign-tcp", su_async, run_async, 0},
 	{"async-sign-http", su_async, run_async, 1},
 	{"async-sign-tcp-kept-service", su_async, run_async, 2},
@@ -1194,6 +1282,9 @@ static const op_t OPS[] = {
 	{"ha-sign-2-endpoints", su_async, run_async, 4},
 	{"async-extend-tcp", su_async, run_async, 8},
 	{"async-extend-http", su_async, run_async, 9},
+	{"ha-extend-2-endpoints", su_async, run_async, 12},
+	{"async-sign-tcp-3-requests", su_async, run_async_multi, 0},
+	{"async-sign-http-3-requests", su_async, run_async_multi, 1},
 	{"pubfile-parse", su_pubfile, run_pubfile, 0},
 	{"pubfile-verify", su_pubfile, run_pubfile, 1},
 	{"pubfile-lookups", su_pubfile, run_pubfile, 2},
